@@ -14,7 +14,7 @@
    every real merge-sorted list), are the PARTIAL part of C22. *)
 From Coq Require Import List Arith Bool ZArith Permutation.
 From BV Require Import Lib.Dag Theory.DagFacts Lib.DagMergeSort Theory.DagMergeSortFacts
-                       Model.RevSpec Theory.RevSpec.
+                       Theory.DagMergeSortMainline Model.RevSpec Theory.RevSpec.
 Import ListNotations.
 
 (* ---- revision number n names the n-th revision of the left-hand history ------------- *)
@@ -91,6 +91,35 @@ Proof.
   - intros P. apply depth0_is_lefthand; assumption.
 Qed.
 Print Assumptions C22_merge_sort_ids_partial.
+
+(* the numbering of the left-hand history IS proved: an entry on the left-hand
+   history carries its position (counted from the root) as a one-component
+   revno -- the number revision_id_to_revno computes -- and every other entry a
+   three-component revno *)
+Theorem C22_merge_sort_mainline :
+  forall g (t : revid), wf_dag g = true -> t < length g -> lefthand_present g t = true ->
+  forall e, In e (merge_sorted g (Some t)) ->
+  (In (e_id e) (lefthand g t) /\ e_revno e = [length (lefthand g (e_id e))]) \/
+  (~ In (e_id e) (lefthand g t) /\ length (e_revno e) = 3).
+Proof. exact merge_sorted_shape. Qed.
+Print Assumptions C22_merge_sort_mainline.
+
+Theorem C22_mainline_numberings_agree :
+  forall b (t : revid) e, wf_dag (br_g b) = true -> br_tip b = Some t ->
+  t < length (br_g b) -> lefthand_present (br_g b) t = true ->
+  In e (merge_sorted (br_g b) (br_tip b)) -> In (e_id e) (lh b) ->
+  exists n, revision_id_to_revno b (Some (e_id e)) = Ok n /\ e_revno e = [n].
+Proof. exact mainline_revno_agrees. Qed.
+Print Assumptions C22_mainline_numberings_agree.
+
+(* so the hypothesis [ms_good] of the next theorems reduces, for the Gallina
+   merge sort, to the distinctness of the revnos alone *)
+Theorem C22_ms_good_from_distinct :
+  forall b (t : revid), wf_dag (br_g b) = true -> br_tip b = Some t ->
+  t < length (br_g b) -> lefthand_present (br_g b) t = true ->
+  NoDup (ms_revnos (merge_sorted (br_g b) (br_tip b))) -> ms_good b.
+Proof. exact ms_good_from_distinct. Qed.
+Print Assumptions C22_ms_good_from_distinct.
 
 (* id -> dotted revno -> id and dotted revno -> id -> dotted revno, through the
    code's two paths (mainline by position, everything else by the revno map);
